@@ -311,7 +311,7 @@ pub fn run(ctx: &mut Ctx) {
             continue;
         }
         let mut p = Prng::new(sub, "h");
-        let ke = scalar_for(&mut p, i % 20);
+        let ke = scalar_for(&mut p, i % 28);
         // identities beyond the 2^16-bit / 2^16-byte thresholds now and then
         let long = [8186usize, 8192, 20000, 70001][((i / 16) % 4) as usize];
         let la = if i % 16 == 11 { long } else { p.range(0, 24) };
